@@ -45,6 +45,22 @@ def run(ctx):
                 rp.update(observed=f"{name} says {got}", expected=f"{verdict} (validate reports {len(c.errors)} errors)")
                 ctx.violation(f"`{name}` disagrees with validate(S, v)", rp)
                 break
+    # the regex clause, restated with Python's own matcher (Regex.v reads the categories \\d \\w \\b as ASCII, so cases
+    # that put them next to non-ASCII text are outside the model; `re` decides them here): a str leaf that declares
+    # only a pattern accepts a str exactly when re.search finds the pattern in it
+    import re
+    from d42.declaration.types import StrSchema
+    regex_clause = 0
+    for c in cases:
+        if c.obs_kind != "ok" or type(c.schema) is not StrSchema or list(c.schema.props) != ["pattern"] or type(c.value) is not str:
+            continue
+        regex_clause += 1
+        want = re.search(c.schema.props.pattern, c.value) is not None
+        if want != (not c.errors):
+            rp = c.replay_dict()
+            rp.update(observed="accepts" if not c.errors else "rejects",
+                      expected=f"re.search({c.schema.props.pattern!r}, value) is {'not ' if want else ''}None")
+            ctx.violation("the verdict of a str schema that declares only a pattern is not that of re.search", rp)
     modelled = [c for c in cases if c.term is not None]
     bad = common.eval_cases(ctx.workdir, "c02", [c.term for c in modelled], "vcase", "verdict_case_ok")
     dist, kinds = vsuite.distribution(cases)
@@ -52,6 +68,8 @@ def run(ctx):
     not_wf = common.eval_cases(ctx.workdir, "c02wf", [c.term for c in modelled], "vcase", "wf_case_ok")
     dist["hypothesis_wf_holds"] = len(modelled) - len(not_wf)
     dist["hypothesis_wf_fails"] = len(not_wf)
+    dist["regex_clause_by_re"] = regex_clause
+    dist["verdict_spellings"] = spellings
     ctx.coverage.update(
         evaluations=len(cases),
         distinct_nontrivial=vsuite.distinct_nontrivial(cases),
